@@ -88,6 +88,8 @@ FIXED = [
      'explain(): satisfied always/historically and violated eventually/once propagated only the first of several disjoint intervals'),
     ('F22', ['C06'], 'fix: xor nodes did not propagate the input/output variables',
      "IA-STL: Xor nodes did not collect in_vars/out_vars, so a predicate over an operand containing xor was treated as insensitive"),
+    ('F23', ['C01', 'C17'], "fix: an untimed 'unless' could not be parsed",
+     "'phi unless psi' (grammar + README sugar for always(phi) or (phi until psi)) raised AttributeError in parse(): the optional interval was visited before testing that it is present"),
 ]
 
 OPEN = [
